@@ -1,5 +1,6 @@
-# sourced by every script: toolchain + offline settings
+# sourced by every script: toolchain + offline settings; ROOT = the verif tree the script lives in
 export PATH=/opt/veriftools/go1.26.8/bin:$PATH
 export GOTOOLCHAIN=local GOFLAGS=-mod=mod GOPROXY=off GOSUMDB=off CGO_ENABLED=0
-export VERIF_ROOT=/verif
+ROOT=$(cd "$(dirname "${BASH_SOURCE[0]}")/.." && pwd)
+export VERIF_ROOT=$ROOT
 export REPO=${REPO:-/repo}
